@@ -472,6 +472,8 @@ static void* adopt_worker(void* arg) {
   return NULL;
 }
 static void adopt_phase(int bound, int hb) {
+  /* frees of blocks left behind come first (with reclaim on free they adopt the block's segment into the default heap -- if it may use it) */
+  if (!bound) for (int i = 0; i < 4; i++) { int f = pick_live(); if (f >= 0) op_free_slot(f, FR_free); }
   /* fresh segments: large (12 MiB) pages, two per segment; every fresh segment request first tries to reclaim abandoned segments */
   int big[12], nbig = 0;
   int nfresh = 8 + (int)vf_randn(5);
@@ -570,23 +572,28 @@ static void* leaver_main(void* arg) {
   vf_point();
   int own[64], nown = 0;
   int n = 4 + (int)vf_randn(20);
+  /* some threads work in a second (non-exclusive, managed) arena through a heap bound to it: abandoned segments in more than one arena */
+  int hb = (r->collect && arena_idx >= 0) ? heap_new_in_arena_op(arena_idx) : -1;
   for (int i = 0; i < n; i++) {
     static const size_t szs[] = {16, 100, 1000, 8000, 8192, 70000, 300000, 2u << 20, 20u << 20};
-    int ns_ = op_alloc_ex(vf_randn(3) ? A_malloc : A_zalloc, szs[vf_randn(9)] + vf_randn(64), 0, 0, 0, 0);
+    int ns_ = (hb >= 0 && vf_randn(4) != 0) ? op_alloc_ex(A_heap_malloc, szs[vf_randn(8)] + vf_randn(64), 0, 0, hb, 0)
+                                            : op_alloc_ex(vf_randn(3) ? A_malloc : A_zalloc, szs[vf_randn(9)] + vf_randn(64), 0, 0, 0, 0);
     if (ns_ >= 0 && nown < 64) own[nown++] = ns_;
     vf_point();
   }
   /* free some of the own blocks again (hole patterns), leave the rest behind */
   for (int i = 0; i < nown; i++) if (vf_randn(3) == 0 && slots[own[i]].p) { op_free_slot(own[i], FR_free); vf_point(); }
+  if (hb >= 0) { hps[hb].alive = 0; hps[hb].descid = 0; }     /* released by mi_thread_done */
   vf_logf("{\"e\":\"tdone\",\"t\":%d}", r->t); vf_log_line_end();
   vf_in_call = 1; mi_thread_done(); vf_in_call = 0;
   return NULL;
 }
 static void prog_abvisit(int nthreads) {
   max_fill = 16384;
+  arena_idx = (vf_randn(3) != 0) ? arena_setup((size_t)6 * (32u << 20) + 4096, 4096 * 2, 0) : -1;
   /* blocks of the main thread itself must never be reported as abandoned */
   for (int i = 0; i < 5; i++) op_alloc_ex(A_malloc, 100 + vf_randn(20000), 0, 0, 0, 0);
-  for (int k = 0; k < nthreads; k++) { role_t* r = &roles[k + 1]; memset(r, 0, sizeof(*r)); r->t = k + 1; r->heapid = next_heap_id++; vf_spawn(leaver_main, r); }
+  for (int k = 0; k < nthreads; k++) { role_t* r = &roles[k + 1]; memset(r, 0, sizeof(*r)); r->t = k + 1; r->heapid = next_heap_id++; r->collect = (int)vf_randn(2); vf_spawn(leaver_main, r); }
   vf_sched_go();
   vf_wait_all();
   visit_abandoned(0);                                   /* exactly the blocks left behind */
